@@ -78,6 +78,13 @@ func checkC11(c *km.Ctx) {
 		}
 	}
 	checkIPRestrictedHelper(c, s, "R-C11-1")
+	if fn := c.P.Func("lib/certgen", "VerifyIPRestrictedX509CertIP"); fn != nil {
+		// "malformed address extensions are rejected": a block that does not decode ends the verification with
+		// an error, wherever it sits in the list (never skipped in favour of a later block that matches)
+		if n := checkErrorAborts(c, "R-C11-1", fn, certgenPkg+".decodeIPV4AddressChoice", 1, "address block that does not decode"); n == 0 {
+			r.AnchorLost("R-C11-1", "decoding of the address blocks in VerifyIPRestrictedX509CertIP")
+		}
+	}
 
 	// ---------- R-C11-2
 	if ca := c.MustFunc("R-C11-2", "cmd/keymasterd", "(*RuntimeState).checkAuth"); ca != nil {
